@@ -26,8 +26,10 @@ import (
 	"testing"
 	"time"
 
+	"github.com/go-redis/redis/v8"
 	"github.com/refraction-networking/conjure/internal/vc17"
 	"github.com/refraction-networking/conjure/internal/vlib"
+	"github.com/refraction-networking/conjure/pkg/core"
 	"github.com/refraction-networking/conjure/pkg/station/geoip"
 	"github.com/refraction-networking/conjure/pkg/station/log"
 	"github.com/refraction-networking/conjure/pkg/transports"
@@ -155,9 +157,30 @@ type c17Conn struct {
 	closed        chan struct{}
 	once          sync.Once
 	block         bool // after the chunks, block until closed instead of returning EOF
+	// the k-th call (1-based) of a method fails with kErr: Read, Write, SetDeadline, SetReadDeadline,
+	// SetWriteDeadline — whatever happened at the calls before it
+	kMethod string
+	kAt     int
+	kErr    error
+	kCalls  map[string]int
+	dlNotSup bool // SetDeadline answers ENOTSUP (the obfs4 connection does): the relay falls back to SetReadDeadline
 	gate          func() // runs before the first Read and before RemoteAddr answer (Proxy asks for the client's
 	// address after it has dialled the covert and before it writes the PROXY header)
 	gateOnce sync.Once
+}
+
+// kFail counts a call of method and says whether it is the one that fails.
+func (c *c17Conn) kFail(method string) bool {
+	if c.kMethod == "" {
+		return false
+	}
+	c.mu.Lock()
+	defer c.mu.Unlock()
+	if c.kCalls == nil {
+		c.kCalls = map[string]int{}
+	}
+	c.kCalls[method]++
+	return method == c.kMethod && c.kCalls[method] == c.kAt
 }
 
 func (c *c17Conn) waitGate() {
@@ -172,6 +195,9 @@ func newC17Conn(local, remote net.Addr) *c17Conn {
 
 func (c *c17Conn) Read(p []byte) (int, error) {
 	c.waitGate()
+	if c.kFail("Read") {
+		return 0, c.kErr
+	}
 	c.mu.Lock()
 	if len(c.chunks) > 0 {
 		n := copy(p, c.chunks[0])
@@ -190,6 +216,9 @@ func (c *c17Conn) Read(p []byte) (int, error) {
 	return 0, io.EOF
 }
 func (c *c17Conn) Write(p []byte) (int, error) {
+	if c.kFail("Write") {
+		return 0, c.kErr
+	}
 	if c.writeErr != nil {
 		if c.writePartial {
 			return (len(p) + 1) / 2, c.writeErr
@@ -205,6 +234,12 @@ func (c *c17Conn) Close() error {
 func (c *c17Conn) LocalAddr() net.Addr  { return c.local }
 func (c *c17Conn) RemoteAddr() net.Addr { c.waitGate(); return c.remote }
 func (c *c17Conn) SetDeadline(t time.Time) error {
+	if c.kFail("SetDeadline") {
+		return c.kErr
+	}
+	if c.dlNotSup {
+		return syscall.ENOTSUP
+	}
 	c.mu.Lock()
 	defer c.mu.Unlock()
 	i := c.dlCalls
@@ -214,8 +249,18 @@ func (c *c17Conn) SetDeadline(t time.Time) error {
 	}
 	return nil
 }
-func (c *c17Conn) SetReadDeadline(t time.Time) error  { return nil }
-func (c *c17Conn) SetWriteDeadline(t time.Time) error { return nil }
+func (c *c17Conn) SetReadDeadline(t time.Time) error {
+	if c.kFail("SetReadDeadline") {
+		return c.kErr
+	}
+	return nil
+}
+func (c *c17Conn) SetWriteDeadline(t time.Time) error {
+	if c.kFail("SetWriteDeadline") {
+		return c.kErr
+	}
+	return nil
+}
 
 func c17Settle(base int) {
 	for i := 0; i < 100000 && runtime.NumGoroutine() > base; i++ {
@@ -232,7 +277,41 @@ func c17Settle(base int) {
 var c17Positions = []string{"client.Read", "client.Read+data", "client.Write", "client.Write+partial", "client.Close", "client.SetDeadline#0", "client.SetDeadline#1",
 	"covert.Read", "covert.Read+data", "covert.Write", "covert.Write+partial", "covert.Close", "covert.SetDeadline#0", "covert.SetDeadline#1"}
 
+// c17KPositions: the k-th call (k = 1, 2, 3) of each I/O method of either connection.  With three chunks to
+// relay the loop of halfPipe comes round three times: k = 1 of SetDeadline is the initial deadline, k = 2, 3 are
+// refreshes of the stall deadline after a chunk went through; SetReadDeadline is what the relay falls back to
+// on a connection that answers ENOTSUP to SetDeadline.
+func c17KPositions() []string {
+	var out []string
+	for _, side := range []string{"client", "covert"} {
+		for _, m := range []string{"Read", "Write", "SetDeadline", "SetReadDeadline", "SetWriteDeadline"} {
+			for k := 1; k <= 3; k++ {
+				out = append(out, fmt.Sprintf("%s.%s@%d", side, m, k))
+			}
+		}
+	}
+	return out
+}
+
+// c17SetShapes: what a SetDeadline / SetReadDeadline / SetWriteDeadline call can return: package net's own
+// shape (local address only), and — from a connection that a transport wraps — operation errors that name both
+// endpoints, as they are, wrapped, and flattened into text.
+func c17SetShapes(local, remote *vc17.Addr) []*vc17.Node {
+	out := vc17.Shapes("set", local, remote)
+	for _, errno := range []syscall.Errno{syscall.EINVAL, syscall.EBADF, syscall.ENOTCONN, syscall.ECONNRESET} {
+		both := &vc17.Node{Kind: "O", Txt: "set", Net: "tcp", Src: local, Dst: remote, Inner: &vc17.Node{Kind: "S", Txt: "setsockopt", Inner: &vc17.Node{Kind: "E", N: int(errno)}}}
+		out = append(out, both, &vc17.Node{Kind: "W", Txt: "transport", Inner: both}, &vc17.Node{Kind: "F", Txt: "error setting deadline: ", Inner: both})
+	}
+	return append(out, &vc17.Node{Kind: "O", Txt: "set", Net: "udp", Src: local, Dst: remote, Inner: &vc17.Node{Kind: "dl"}})
+}
+
 func c17OpOf(pos string) string {
+	if pos == "k" {
+		return "k"
+	}
+	if i := strings.Index(pos, "@"); i >= 0 {
+		pos = pos[:i]
+	}
 	switch {
 	case strings.HasSuffix(pos, "Read"), strings.HasSuffix(pos, "Read+data"):
 		return "read"
@@ -256,7 +335,16 @@ func c17Relay(cl vc17.Client, up bool, pos string, n *vc17.Node, glob *c17Buf) (
 	if strings.HasPrefix(pos, "covert") {
 		target = covert
 	}
+	if i := strings.Index(pos, "@"); i >= 0 {
+		// the k-th call of the method, in a tunnel that has three chunks to move in each direction
+		client.chunks = [][]byte{[]byte("first chunk from the client"), []byte("second chunk"), []byte("third chunk")}
+		covert.chunks = [][]byte{[]byte("first chunk from the covert"), []byte("second chunk"), []byte("third chunk")}
+		target.kMethod, target.kAt, target.kErr = pos[strings.Index(pos, ".")+1:i], int(pos[i+1]-'0'), err
+		target.dlNotSup = target.kMethod == "SetReadDeadline"
+		pos = "k"
+	}
 	switch c17OpOf(pos) {
+	case "k":
 	case "read":
 		target.readErr = err
 		if strings.HasSuffix(pos, "+data") {
@@ -293,12 +381,16 @@ func c17RelayAll(out *vlib.Out, glob *c17Buf) {
 	st, cov := vc17.Station(), vc17.Covert()
 	for _, cl := range vc17.Clients() {
 		for _, up := range []bool{true, false} {
-			for _, pos := range c17Positions {
+			for _, pos := range append(append([]string{}, c17Positions...), c17KPositions()...) {
 				local, remote := st, cl.Addr
 				if strings.HasPrefix(pos, "covert") {
 					local, remote = &vc17.Addr{Role: 's', TCP: &net.TCPAddr{IP: st.TCP.IP, Port: 50123}}, cov
 				}
-				for _, n := range vc17.Shapes(c17OpOf(pos), local, remote) {
+				shapes := vc17.Shapes(c17OpOf(pos), local, remote)
+				if c17OpOf(pos) == "set" {
+					shapes = c17SetShapes(local, remote)
+				}
+				for _, n := range shapes {
 					logged, stats := c17Relay(cl, up, pos, n, glob)
 					out.Checked()
 					out.Count("relay:" + pos)
@@ -312,7 +404,7 @@ func c17RelayAll(out *vlib.Out, glob *c17Buf) {
 					// the text the model computes for generalizeErr
 					reads := (strings.HasPrefix(pos, "client.Read") && up) || (strings.HasPrefix(pos, "covert.Read") && !up)
 					writes := (strings.HasPrefix(pos, "covert.Write") && up) || (strings.HasPrefix(pos, "client.Write") && !up)
-					if reads || writes {
+					if (reads || writes) && !strings.Contains(pos, "@") {
 						field := stats.ClientConnErr
 						if strings.HasPrefix(pos, "covert") {
 							field = stats.CovertConnErr
@@ -757,6 +849,7 @@ func TestVerifC17Lib(t *testing.T) {
 	c17Connecting(t, out, &glob)
 	c17ConnectFails(out, &glob)
 	c17GeoIPShapes(t, out, &glob)
+	c17Detector(out, &glob)
 	// (E) the statistics printers, after all of the above has been counted
 	c17Statistics(out, all[:len(clients)])
 	// whatever reached the standard logger or the standard streams outside a scanned scenario
@@ -1114,6 +1207,131 @@ func c17GeoIPShapes(t *testing.T, out *vlib.Out, glob *c17Buf) {
 	}
 }
 
+// c17Redis is a stand-in for the detector's Redis on loopback.  Modes: "ok" answers every command with :1,
+// "error" answers -ERR, "garbage" answers bytes that are no RESP reply, "reset" resets every connection it
+// accepts, "close" closes it at once, "dead" is a port nobody listens on.
+func c17Redis(mode string) (addr string, stop func()) {
+	ln, err := net.Listen("tcp", "127.0.0.1:0")
+	if err != nil {
+		panic(err)
+	}
+	addr = ln.Addr().String()
+	if mode == "dead" {
+		ln.Close()
+		return addr, func() {}
+	}
+	var mu sync.Mutex
+	var conns []net.Conn
+	go func() {
+		for {
+			c, err := ln.Accept()
+			if err != nil {
+				return
+			}
+			mu.Lock()
+			conns = append(conns, c)
+			mu.Unlock()
+			go func(c net.Conn) {
+				defer c.Close()
+				switch mode {
+				case "reset":
+					_ = c.(*net.TCPConn).SetLinger(0)
+					return
+				case "close":
+					return
+				}
+				buf := make([]byte, 4096)
+				for {
+					_ = c.SetDeadline(time.Now().Add(60 * time.Second))
+					if _, err := c.Read(buf); err != nil {
+						return
+					}
+					reply := ":1\r\n"
+					switch mode {
+					case "error":
+						reply = "-ERR the detector's redis is read-only now\r\n"
+					case "garbage":
+						reply = "?what\r\n"
+					}
+					if _, err := c.Write([]byte(reply)); err != nil {
+						return
+					}
+				}
+			}(c)
+		}
+	}()
+	return addr, func() {
+		ln.Close()
+		mu.Lock()
+		defer mu.Unlock()
+		for _, c := range conns {
+			c.Close()
+		}
+	}
+}
+
+// c17Detector: the channel to the detector as a dimension.  The registry's detector hooks are left as they are
+// (they publish over Redis); the package's Redis client points at a stand-in that works, answers errors,
+// answers garbage, resets, closes, or is not there.  A registration of each client family is made valid
+// (AddRegistration: operation New), marked active (MarkActive: Update), expired, and the detector is told to
+// clear its sessions (Cleanup).  The message to the detector carries the registrant's address by design; none
+// of what the station writes about a failed publish may.
+func c17Detector(out *vlib.Out, glob *c17Buf) {
+	oldClient := client
+	defer func() {
+		// the other scenarios stub the hooks; the next user of the client initialises it afresh
+		if client != nil && client != oldClient {
+			client.Close()
+		}
+		client = nil
+		once = sync.Once{}
+	}()
+	for _, mode := range []string{"ok", "error", "garbage", "reset", "close", "dead"} {
+		addr, stop := c17Redis(mode)
+		once.Do(func() {})
+		if client != nil && client != oldClient {
+			client.Close()
+		}
+		client = redis.NewClient(&redis.Options{Addr: addr, Password: "", DB: 0, PoolSize: 2, MaxRetries: -1,
+			DialTimeout: 500 * time.Millisecond, ReadTimeout: 500 * time.Millisecond, WriteTimeout: 500 * time.Millisecond, PoolTimeout: time.Second})
+		for k, cl := range vc17.Clients() {
+			rm := NewRegistrationManager(&RegConfig{})
+			if rm == nil {
+				panic("no registration manager")
+			}
+			var lb c17Buf
+			rm.Logger = log.New(&lb, "[REG] ", golog.Ldate|golog.Lmicroseconds)
+			if err := rm.AddTransport(pb.TransportType_Min, &mockTransport{}); err != nil {
+				panic(err)
+			}
+			reg := c05RegLike("93.184.216.34:443", false)
+			reg.Keys = &core.ConjureSharedKeys{SharedSecret: bytes.Repeat([]byte{byte(0x70 + k)}, 32)}
+			reg.registrationAddr = cl.Addr.TCP.IP
+			if cl.Addr.TCP.IP.To4() == nil {
+				reg.PhantomIp = net.ParseIP("2001:48a8:687f:1::77")
+			}
+			c17StdReset(glob)
+			rm.AddRegistration(reg) // the publish is synchronous: nothing to wait for afterwards
+			rm.MarkActive(reg)
+			rm.MarkActive(reg)
+			for _, to := range rm.registeredDecoys.decoysTimeouts {
+				to.registrationTime = time.Now().Add(-48 * time.Hour)
+			}
+			rm.registeredDecoys.removeOldRegistrations(rm.Logger)
+			rm.Cleanup()
+			logged := lb.String() + c17Std(glob)
+			out.Checked()
+			out.Count("detector:" + mode)
+			if hit := vc17.Scan(logged, cl.Needles); hit != "" {
+				c17Fail(out, "C17:detector-channel-log-has-client-address",
+					fmt.Sprintf("detector's Redis %s, %s registrant, AddRegistration + MarkActive + expiry + Cleanup: the station's output contains %s: %s", mode, cl.Name, hit, c17Clip(logged, hit)),
+					fmt.Sprintf("detector|%s|%s", mode, cl.Name))
+			}
+		}
+		stop()
+	}
+}
+
 // ---------------------------------------------------------------------------------------------
 // (E) statistics
 
@@ -1179,6 +1397,9 @@ func c17LibReplay(t *testing.T, out *vlib.Out, path string, glob *c17Buf) {
 	if strings.Contains(s, "\nconnecting|") {
 		c17Connecting(t, out, glob)
 		c17ConnectFails(out, glob)
+	}
+	if strings.Contains(s, "\ndetector|") {
+		c17Detector(out, glob)
 	}
 	if strings.Contains(s, "\ngeoipdb|") {
 		c17GeoIPShapes(t, out, glob)
